@@ -97,8 +97,8 @@ def check_timer_start_sample(ctx: Ctx, rule: str = 'R10.5') -> None:
             names.add(n.right.id)
         if isinstance(n, ast.Compare) and len(n.ops) == 1 and isinstance(n.comparators[0], ast.Name) and 'idle_reset_time' in src(n.left):
             names.add(n.comparators[0].id)
-    samples = [n for n in g.nodes if n.kind == 'stmt' and isinstance(n.stmt, ast.Assign) and any(isinstance(t, ast.Name) and t.id in names for t in n.stmt.targets)
-               and isinstance(n.stmt.value, ast.Call)]
+    samples = [n for n in g.nodes if n.kind == 'stmt' and isinstance(n.stmt, (ast.Assign, ast.AnnAssign)) and isinstance(n.stmt.value, ast.Call)
+               and any(isinstance(t, ast.Name) and t.id in names for t in (n.stmt.targets if isinstance(n.stmt, ast.Assign) else [n.stmt.target]))]
     ctx.require_sites(rule, '_timer: start-time sample', len(samples), 1, f.loc())
     und = g.dominated(execs, samples)
     susp = g.suspensions_between(samples, execs)
